@@ -31,6 +31,12 @@ Throw == [out |-> "throw"]
 Unspec == [out |-> "unspec"]
 Bool(b) == MkInt(IF b THEN IntOne ELSE IntZero)
 
+\* non-finite floats (same shape as the records the harness reports)
+FltInf(sg) == [k |-> "float", f |-> [c |-> "inf", sg |-> sg, m |-> <<>>, e |-> 0]]
+FltNaN == [k |-> "float", f |-> [c |-> "nan", sg |-> 0, m |-> <<>>, e |-> 0]]
+\* x / 0 on the exact levels falls back to float infinity / NaN by the sign of x
+DivByZero(sgn) == IF sgn = 0 THEN Ok(FltNaN) ELSE Ok(FltInf(IF sgn < 0 THEN 1 ELSE 0))
+
 Level(x) == CASE x.k = "int" -> 1 [] x.k = "rat" -> 2 [] x.k = "float" -> 3 [] x.k = "complex" -> 4
 
 Two == IntFromInt(2)
@@ -60,7 +66,7 @@ IntBin(op, a, b) ==
       [] op = "/!" -> IF b.s = 0 THEN Throw
                       ELSE LET qr == IntDivModFloor(a, b)
                            IN IF qr[2].s # 0 THEN Throw ELSE Ok(MkInt(qr[1]))
-      [] op = "/" -> IF b.s = 0 THEN Unspec ELSE Ok(MkRat(RatDivInt(a, b)))
+      [] op = "/" -> IF b.s = 0 THEN DivByZero(a.s) ELSE Ok(MkRat(RatDivInt(a, b)))
       [] op = "^" -> IF ~IntFits(b) \/ NatToInt(b.m) > MaxExp THEN Unspec
                      ELSE IF b.s >= 0 THEN Ok(MkInt(IntPow(a, NatToInt(b.m))))
                      ELSE IF a.s = 0 THEN Unspec
@@ -124,7 +130,7 @@ RatBin(op, p, q) ==
     CASE op = "+" -> Ok(MkRat(RatAdd(p, q)))
       [] op \in {"-", "subtract"} -> Ok(MkRat(RatSub(p, q)))
       [] op = "*" -> Ok(MkRat(RatMul(p, q)))
-      [] op = "/" -> IF q.n.s = 0 THEN Unspec ELSE Ok(MkRat(RatDiv(p, q)))
+      [] op = "/" -> IF q.n.s = 0 THEN DivByZero(p.n.s) ELSE Ok(MkRat(RatDiv(p, q)))
       [] op = "//" -> IF q.n.s = 0 THEN Throw ELSE Ok(MkRat(RatFromInt(RatFloor(RatDiv(p, q)))))
       [] op = "%%" -> IF q.n.s = 0 THEN Throw
                       ELSE Ok(MkRat(RatSub(p, RatMul(q, RatFromInt(RatFloor(RatDiv(p, q)))))))
@@ -183,4 +189,82 @@ CorrectlyRounded(f, p) ==
                  IN IF n.s = 0 THEN f.c = "zero" /\ f.sg = sg
                     ELSE /\ f.c = "fin" /\ f.sg = sg
                          /\ RatCmp(FltToRat([f EXCEPT !.sg = 0]), RatMul(RatFromInt(n), ulp)) = 0
+(* ----------------------- extended reals and order ---------------------- *)
+IsReal(x) == x.k \in {"int", "rat", "float"}
+IsNaN(x) == x.k = "float" /\ x.f.c = "nan"
+\* -1 / 0 / 1, or 2 when incomparable (a NaN is involved)
+ExtCmp(x, y) ==
+    IF IsNaN(x) \/ IsNaN(y) THEN 2
+    ELSE LET xi == x.k = "float" /\ x.f.c = "inf"
+             yi == y.k = "float" /\ y.f.c = "inf"
+             sx == IF x.f.sg = 1 THEN -1 ELSE 1
+             sy == IF y.f.sg = 1 THEN -1 ELSE 1
+         IN IF xi /\ yi THEN (IF sx = sy THEN 0 ELSE IF sx < sy THEN -1 ELSE 1)
+            ELSE IF xi THEN sx
+            ELSE IF yi THEN -sy
+            ELSE RatCmp(IF x.k = "float" THEN FltToRat(x.f) ELSE AsRat(x),
+                        IF y.k = "float" THEN FltToRat(y.f) ELSE AsRat(y))
+FZero == [k |-> "float", f |-> [c |-> "zero", sg |-> 0, m |-> <<>>, e |-> 0]]
+Re(x) == IF x.k = "complex" THEN [k |-> "float", f |-> x.re] ELSE x
+Im(x) == IF x.k = "complex" THEN [k |-> "float", f |-> x.im] ELSE FZero
+\* complex numbers compare as (re, im) pairs
+NumCmp(x, y) == LET c == ExtCmp(Re(x), Re(y)) IN IF c # 0 THEN c ELSE ExtCmp(Im(x), Im(y))
+NumEq(x, y) == ExtCmp(Re(x), Re(y)) = 0 /\ ExtCmp(Im(x), Im(y)) = 0
+
+CmpOps == {"==", "!=", "<", "<=", ">", ">=", "<=>", ">=<", "min", "max"}
+CmpBin(op, x, y) ==
+    LET c == NumCmp(x, y)
+    IN CASE op = "==" -> Ok(Bool(NumEq(x, y)))
+         [] op = "!=" -> Ok(Bool(~NumEq(x, y)))
+         [] c = 2 -> Throw
+         [] op = "<" -> Ok(Bool(c < 0))
+         [] op = "<=" -> Ok(Bool(c <= 0))
+         [] op = ">" -> Ok(Bool(c > 0))
+         [] op = ">=" -> Ok(Bool(c >= 0))
+         [] op = "<=>" -> Ok(MkInt(IntFromInt(c)))
+         [] op = ">=<" -> Ok(MkInt(IntFromInt(-c)))
+         [] op = "min" -> Ok(IF NumCmp(y, x) < 0 THEN y ELSE x)
+         [] op = "max" -> Ok(IF NumCmp(y, x) > 0 THEN y ELSE x)
+
+(* ----------------------------- dispatch ------------------------------- *)
+Exact(x) == x.k \in {"int", "rat"}
+NumBin(op, x, y) ==
+    IF op \in CmpOps THEN CmpBin(op, x, y)
+    ELSE IF x.k = "int" /\ y.k = "int" THEN IntBin(op, x.i, y.i)
+    ELSE IF Exact(x) /\ Exact(y) THEN
+         (IF op = "^" THEN (IF y.k = "int" THEN RatPowInt(AsRat(x), y.i) ELSE Unspec)
+          ELSE RatBin(op, AsRat(x), AsRat(y)))
+    ELSE Unspec
+
+NumUn(op, x) ==
+    CASE x.k = "int" /\ op \in {"neg", "~", "abs", "signum", "even", "odd", "is_prime"} -> IntUn(op, x.i)
+      [] x.k = "int" /\ op \in {"floor", "ceil", "round", "int", "numerator"} -> Ok(x)
+      [] x.k = "int" /\ op = "denominator" -> Ok(MkInt(IntOne))
+      [] x.k = "int" /\ op = "rational" -> Ok(MkRat(RatFromInt(x.i)))
+      [] x.k = "rat" /\ op = "neg" -> Ok(MkRat(RatNeg(AsRat(x))))
+      [] x.k = "rat" /\ op = "abs" -> Ok(MkRat(RatAbs(AsRat(x))))
+      [] x.k = "rat" /\ op = "signum" -> Ok(MkInt(IntFromInt(x.n.s)))
+      [] x.k = "rat" /\ op = "floor" -> Ok(MkInt(RatFloor(AsRat(x))))
+      [] x.k = "rat" /\ op = "ceil" -> Ok(MkInt(RatCeil(AsRat(x))))
+      [] x.k = "rat" /\ op = "round" -> Ok(MkInt(RatRound(AsRat(x))))
+      [] x.k = "rat" /\ op = "int" -> Ok(MkInt(RatTrunc(AsRat(x))))
+      [] x.k = "rat" /\ op = "numerator" -> Ok(MkInt(RatMk(x.n, x.d).n))
+      [] x.k = "rat" /\ op = "denominator" -> Ok(MkInt(IntMk(1, RatMk(x.n, x.d).d)))
+      [] x.k = "rat" /\ op = "rational" -> Ok(x)
+      [] x.k = "float" /\ FltIsFinite(x.f) /\ op = "floor" -> Ok(MkInt(RatFloor(FltToRat(x.f))))
+      [] x.k = "float" /\ FltIsFinite(x.f) /\ op = "ceil" -> Ok(MkInt(RatCeil(FltToRat(x.f))))
+      [] x.k = "float" /\ FltIsFinite(x.f) /\ op = "round" -> Ok(MkInt(RatRound(FltToRat(x.f))))
+      [] x.k = "float" /\ FltIsFinite(x.f) /\ op = "int" -> Ok(MkInt(RatTrunc(FltToRat(x.f))))
+      [] x.k = "float" /\ FltIsFinite(x.f) /\ op = "rational" -> Ok(MkRat(FltToRat(x.f)))
+      [] x.k = "float" /\ op = "float" -> Ok(x)
+      [] OTHER -> Unspec
+
+(* ----------------------------- comparison ------------------------------ *)
+SameNum(e, o) ==
+    /\ e.k = o.k
+    /\ CASE e.k = "int" -> IntEq(e.i, o.i)
+         [] e.k = "rat" -> RatOk(o) /\ RatCmp(AsRat(e), AsRat(o)) = 0
+         [] e.k = "float" -> e.f = o.f
+         [] e.k = "complex" -> e.re = o.re /\ e.im = o.im
+
 =============================================================================
